@@ -168,6 +168,8 @@ func main() {
 	res := seqmc.Explore(r, seqmc.Config{Name: "bimap", New: func() seqmc.Sys {
 		return &h{u: u, b: &maps.Bimap[int, int]{}, model: map[int]int{}}
 	}})
+	typedStates := allTypedBimaps(r)
+	r.Set("key_value_type_states", typedStates)
 	// Large-size family: up to 200 pairs with every collision pattern, against a pair model
 	famCalls := 0
 	for _, n := range []int{9, 17, 33, 65, 200} {
@@ -325,6 +327,6 @@ func main() {
 	r.Set("traces_validated_against_impl", res.Transitions)
 	r.Set("max_depth", res.MaxDepth)
 	r.Set("universe", u)
-	r.Set("rule", "explicit-state BFS to fixpoint from the zero value over K=V={0..u-1} (incl. the zero value 0): Add(k,v) for all pairs, RemoveForward/RemoveReverse incl. absent, Clear, Clone (search continues on the clone, independence checked both ways by fingerprint); every lookup over the universe compared with a set-of-pairs model after every transition PLUS deterministic families beyond the exhaustive bound (large sizes, every single/double removal from trees built in 7 orders, long one-instance churn histories): see the *_family_* counters")
+	r.Set("rule", "explicit-state BFS to fixpoint from the zero value over K=V={0..u-1} (incl. the zero value 0): Add(k,v) for all pairs, RemoveForward/RemoveReverse incl. absent, Clear, Clone (search continues on the clone, independence checked both ways by fingerprint); every lookup over the universe compared with a set-of-pairs model after every transition PLUS deterministic families beyond the exhaustive bound (large sizes, every single/double removal from trees built in 7 orders, long one-instance churn histories): see the *_family_* counters; the same search over 6 key/value type pairs whose values have several ==-equal spellings (+0.0/-0.0, equal strings in different memory, interfaces, structs, arrays, complex numbers), pointers and int8, every lookup made under every spelling")
 	r.Finish()
 }
